@@ -323,6 +323,99 @@ func propC18(c *ctx) error {
 		}
 	}
 	res.Exhaustive = true
+	// histories over builds whose NAME SETS differ (hot reload off): a name absent from the set in service is not found, and
+	// the same name is served as soon as a successful Reload brings a set that has it (and no longer once a set lacks it);
+	// every sequence up to length L over {Reload -> set k, failing Reload, request of name x}
+	{
+		sets := [][]string{{"a"}, {"a", "b"}, {"b", "c"}, {}}
+		mkSet := func(k int) types.TemplateManager {
+			m := html.NewTplManager()
+			for _, n := range sets[k] {
+				if err := m.Add(n, strings.NewReader(fmt.Sprintf("<p>set%d:%s</p>", k, n))); err != nil {
+					panic(err)
+				}
+			}
+			return m
+		}
+		type nop struct {
+			reload int    // -2 = none, -1 = failing, k = set k
+			name   string // request
+		}
+		alpha := []nop{{reload: 0}, {reload: 1}, {reload: 2}, {reload: 3}, {reload: -1}, {reload: -2, name: "a"}, {reload: -2, name: "b"}, {reload: -2, name: "c"}}
+		LN := 4
+		if !c.quick() {
+			LN = 5
+		}
+		var recN func(prefix []nop) error
+		recN = func(prefix []nop) error {
+			if len(prefix) > 0 && prefix[len(prefix)-1].reload == -2 { // judged when the history ends with a request
+				nextSet := 0
+				builder := func(ctx context.Context) (types.TemplateManager, error) {
+					if nextSet < 0 {
+						return nil, errBuild
+					}
+					return mkSet(nextSet), nil
+				}
+				var hist []any
+				for _, o := range prefix {
+					hist = append(hist, J{"reload": o.reload, "request": o.name})
+				}
+				cs := J{"hot": false, "sets": sets, "first_build": 0, "ops": hist}
+				crumb("reloadable renderer: history over builds with different name sets", cs)
+				r, err := tpl.NewHTMLRender(builder)
+				if err != nil {
+					crumbAt.Store(0)
+					return err
+				}
+				cur := 0
+				var got, want []string
+				for _, o := range prefix {
+					if o.reload != -2 {
+						nextSet = o.reload
+						err := r.Reload(context.Background())
+						got = append(got, fmt.Sprint("reload:", err == nil))
+						want = append(want, fmt.Sprint("reload:", o.reload >= 0))
+						if o.reload >= 0 {
+							cur = o.reload
+						}
+						continue
+					}
+					rec := httptest.NewRecorder()
+					rerr := r.Instance(context.Background(), o.name, nil).Render(rec)
+					g := rec.Body.String()
+					if rerr != nil {
+						g += "|notfound:" + fmt.Sprint(errors.Is(rerr, html.ErrTplNotFound))
+					}
+					w := "|notfound:true"
+					for _, n := range sets[cur] {
+						if n == o.name {
+							w = fmt.Sprintf("<p>set%d:%s</p>", cur, n)
+						}
+					}
+					got, want = append(got, g), append(want, w)
+				}
+				crumbAt.Store(0)
+				res.eval("namesets|"+jstr(cs), true, cs)
+				res.S3Checked++
+				res.count("name_set_histories")
+				if strings.Join(got, ";") != strings.Join(want, ";") {
+					res.violate(cs, want, got, "a request is not answered from the most recent successfully built set: a name the set has is not found, or a name it lacks is served")
+				}
+			}
+			if len(prefix) == LN {
+				return nil
+			}
+			for _, a := range alpha {
+				if err := recN(append(append([]nop{}, prefix...), a)); err != nil {
+					return err
+				}
+			}
+			return nil
+		}
+		if err := recN(nil); err != nil {
+			return err
+		}
+	}
 	// directed interleavings: a request is in flight inside the OLD manager's GetTemplate while a Reload completes;
 	// every request that STARTS after the successful Reload returned must be served from the new set
 	for _, reloadOK := range []bool{true, false} {
